@@ -69,11 +69,15 @@ func (m *Orthographic) Reverse(xy geom.XY) geom.XY {
 		cosφ0 = m.cosφ0
 		sinφ0 = m.sinφ0
 	)
+	ρ := xy.Length()
+	if ρ == 0 {
+		// The center of the projection (the formulas below are 0/0 there).
+		return rtodxy(λ0, atan2(sinφ0, cosφ0))
+	}
 	var (
-		ρ = xy.Length()
 		c = asin(ρ / R)
 		φ = asin(cos(c)*sinφ0 + y*sin(c)*cosφ0/ρ)
-		λ = λ0 + atan(x*sin(c)/(ρ*cos(c)*cosφ0-y*sin(c)*sinφ0))
+		λ = λ0 + atan2(x*sin(c), ρ*cos(c)*cosφ0-y*sin(c)*sinφ0)
 	)
 	return rtodxy(λ, φ)
 }
